@@ -170,8 +170,8 @@ fn check_c31(prog: &T, env: &T, flags: ClvmFlags, acc: &mut Acc, space: &str) {
 pub fn run_c31(ctx: &Ctx) -> Report {
     let mut rep = Report::new("C31", "exploration");
     let flagsets: Vec<ClvmFlags> = ctx.pick(
-        vec![ClvmFlags::empty(), ClvmFlags::NEW_COST_MODEL, ClvmFlags::ENABLE_GC | ClvmFlags::LIMIT_SOFTFORK],
-        vec![ClvmFlags::empty(), ClvmFlags::NEW_COST_MODEL, ClvmFlags::ENABLE_GC, ClvmFlags::ENABLE_GC | ClvmFlags::NEW_COST_MODEL, ClvmFlags::LIMIT_SOFTFORK, ClvmFlags::MALACHITE | ClvmFlags::LIMITS, ClvmFlags::NEW_COST_MODEL | ClvmFlags::ENABLE_KECCAK_OPS_OUTSIDE_GUARD | ClvmFlags::ENABLE_SHA256_TREE],
+        vec![ClvmFlags::empty(), ClvmFlags::NEW_COST_MODEL, ClvmFlags::ENABLE_GC | ClvmFlags::LIMIT_SOFTFORK, ClvmFlags::ENABLE_KECCAK_OPS_OUTSIDE_GUARD],
+        vec![ClvmFlags::empty(), ClvmFlags::NEW_COST_MODEL, ClvmFlags::ENABLE_GC, ClvmFlags::ENABLE_GC | ClvmFlags::NEW_COST_MODEL, ClvmFlags::LIMIT_SOFTFORK, ClvmFlags::MALACHITE | ClvmFlags::LIMITS, ClvmFlags::NEW_COST_MODEL | ClvmFlags::ENABLE_KECCAK_OPS_OUTSIDE_GUARD | ClvmFlags::ENABLE_SHA256_TREE, ClvmFlags::ENABLE_KECCAK_OPS_OUTSIDE_GUARD, ClvmFlags::ENABLE_KECCAK_OPS_OUTSIDE_GUARD | ClvmFlags::ENABLE_SHA256_TREE | ClvmFlags::ENABLE_SECP_OPS],
     );
     let seed = ctx.seed;
     let nf = flagsets.len() as u64;
